@@ -128,11 +128,59 @@ pub fn run(ctx: &mut Ctx) {
         let s = inputs::small_string(i, small_len);
         for m in &masks {
             for l in ["default", "all"] {
-                eval(ctx, &EncCase { input: s.clone(), list: l.into(), mask: *m, macros: false, fnc1: false, eci: None }, "small_scope_exhaustive", true, true);
+                eval(ctx, &EncCase { input: s.clone(), list: l.into(), mask: *m, macros: false, fnc1: false, eci: None, order: 0 }, "small_scope_exhaustive", true, true);
             }
         }
     }
     ctx.exhaustive.insert(format!("strings_len_le_{}_x_{}_mode_sets_with_ascii_x_2_lists", small_len, masks.len()), true);
+    // capacity-boundary sweep: inputs whose plain ASCII / plain Base256 encodation just fits (or just misses)
+    // each of the capacities, against lists in which that capacity is the decisive one
+    let mut caps: Vec<(usize, &'static str)> = cat::CAT.iter().map(|r| (r.data, r.name)).collect();
+    caps.sort();
+    let mut item = 0usize;
+    for (ci, (c, name)) in caps.iter().enumerate() {
+        let next = caps.get(ci + 1).map(|x| x.1);
+        for kind in 0..4 {
+            for delta in -2i64..=1 {
+                if !ctx.mine(item) {
+                    item += 1;
+                    continue;
+                }
+                item += 1;
+                let c = *c as i64;
+                let input: Vec<u8> = match kind {
+                    // binary: Base256 is the only compact form; 1- and 2-byte length field, length-0 form
+                    0 => {
+                        let l = c - 2 + delta;
+                        (0..l.max(0)).map(|i| 0x80 + ((i * 37 + c) % 120) as u8).collect()
+                    }
+                    1 => {
+                        let l = c - 3 + delta;
+                        (0..l.max(0)).map(|i| 0x85 + ((i * 11 + c) % 100) as u8).collect()
+                    }
+                    // digits: ASCII pairs are optimal
+                    2 => {
+                        let l = 2 * c + delta;
+                        (0..l.max(0)).map(|i| b'0' + ((i * 7 + c) % 10) as u8).collect()
+                    }
+                    // mixed case + punctuation: plain ASCII is (nearly) optimal
+                    _ => {
+                        let l = c + delta;
+                        (0..l.max(0)).map(|i| b"aA~b{Z|"[(i as usize) % 7]).collect()
+                    }
+                };
+                let mut lists = vec!["default".to_string(), "all".to_string(), name.to_string()];
+                if let Some(nx) = next {
+                    lists.push(format!("{},{}", name, nx));
+                }
+                for l in lists {
+                    let use_ropt = input.len() <= 60;
+                    eval(ctx, &EncCase { input: input.clone(), list: l, mask: 63, macros: false, fnc1: false, eci: None, order: 0 }, "capacity_boundary_sweep", use_ropt, true);
+                }
+            }
+        }
+    }
+    ctx.exhaustive.insert("capacity_boundary_sweep_48_sizes_x_4_kinds_x_4_deltas".into(), true);
     // fixed corpus (independent of VERIF_SEED and of the shard count): violations are keyed by exact case
     let ncorpus = 60_000;
     for i in 0..ncorpus {
@@ -200,7 +248,7 @@ pub fn gen_case_c10(rng: &mut crate::rng::Rng, max_len: usize) -> EncCase {
         4 => (inputs::gen_list_spec(rng), inputs::gen_mask(rng) | 1),
         _ => (inputs::gen_list_spec(rng), inputs::gen_mask(rng)),
     };
-    EncCase { input, list, mask, macros: false, fnc1: false, eci: None }
+    EncCase { input, list, mask, macros: false, fnc1: false, eci: None, order: 0 }
 }
 
 pub fn replay(ctx: &mut Ctx, case: &Case) {
